@@ -106,6 +106,9 @@ RuleRoundTrip == (WDone /\ res = "ok") => UnparseRule(acc) = toks /\ ParseRule(U
 (* Part B: channels, spellings, damages *)
 Channels == {"str", "slice", "reader", "value", "json_slice", "json_reader", "json_tree", "jsonpretty_reader"}
 Spellings6 == {"plain", "ws", "uescape", "trailing_garbage", "concatenated", "truncated"}
+\* a text in which a member occurs twice is no tree: on such texts only the text channels are compared (with each
+\* other and with the type's own byte entry point, e.g. MetadataWrapper::try_from_bytes)
+TextChannels == Channels \ {"value", "json_tree"}
 \* one leaf of the document: string shorter / longer / empty, number negative / beyond 32 bits / fractional,
 \* member removed, unknown member added (holding a float, null or nested value)
 DamageKinds == {"shorter", "longer", "empty", "negative", "huge", "fraction", "removed", "unknown_member"}
